@@ -110,9 +110,17 @@ def run(scn):
         n = min(len(t1), len(t2))
         compared = 0
         for a, b in zip(t1[:n], t2[:n]):
-            pa = [(x[1], x[2]) for x in a["attempts"]]
-            pb = [(x[1], x[2]) for x in b["attempts"]]
-            if pa != pb:
+            # refusals (which screening iteration, how many) must coincide; the number of screening
+            # iterations may differ only if the exit decision was a coin flip on the tolerance
+            pa = [(x[3], x[2]) for x in a["attempts"] if x[1]]
+            pb = [(x[3], x[2]) for x in b["attempts"] if x[1]]
+            flip = False
+            if a["n_screen"] != b["n_screen"] and a["screen_errs"] and b["screen_errs"]:
+                tol_s = scn["options"].get("screening_tolerance", 1e-3)
+                m = min(a["n_screen"], b["n_screen"]) - 1
+                ea, eb = a["screen_errs"][m], b["screen_errs"][m]
+                flip = abs(ea - eb) <= 1e-6 * tol_s and min(ea, eb) < tol_s <= max(ea, eb)
+            if pa != pb or flip:
                 # a refusal decided by the last bit of a discriminant: the twins part ways legitimately
                 h1.probe("twin_refusal_pattern_diverged")
                 break
